@@ -168,6 +168,16 @@ let run (id : string) (hdr : string list) (lines : string list list) (out : stri
       let resp = req (QBegin (m = "ro")) in
       (match resp with PBegun i -> begun := Some (HId i) :: !begun | _ -> begun := None :: !begun);
       show resp; go r
+    | ["cbegin"; n; rounds] :: r ->
+      (* n concurrent read-only begins, each used once and rolled back, `rounds` times: whatever the
+         interleaving, n*rounds handles are consumed and none stays open *)
+      let total = int_of_string n * int_of_string rounds in
+      for _ = 1 to total do
+        (match req (QBegin true) with
+         | PBegun i -> ignore (req (QRollback (HId i)))
+         | _ -> ())
+      done;
+      pr (Printf.sprintf "CB ok handles=%d" total); go r
     | ["commit"; h] :: r -> show (req (QCommit (resolve h))); go r
     | ["rollback"; h] :: r -> show (req (QRollback (resolve h))); go r
     | ["tget"; h; k] :: r -> show (req (QTxGet (resolve h, btok k))); go r
